@@ -222,6 +222,13 @@ var c04Rules = []c04Rule{
 	}},
 	{"duplicate-parameter-in-list", "operation", "", dupFirstParam},
 	{"duplicate-parameter-in-list", "pathItem", "", dupFirstParam},
+	// the same duplicate, spelled through references: the same component twice, a reference next to an inline copy (both orders)
+	{"duplicate-parameter-in-list:same-reference-twice", "operation", "", dupParamBy("ref", "ref")},
+	{"duplicate-parameter-in-list:same-reference-twice", "pathItem", "", dupParamBy("ref", "ref")},
+	{"duplicate-parameter-in-list:reference-then-inline", "operation", "", dupParamBy("ref", "inline")},
+	{"duplicate-parameter-in-list:reference-then-inline", "pathItem", "", dupParamBy("ref", "inline")},
+	{"duplicate-parameter-in-list:inline-then-reference", "operation", "", dupParamBy("inline", "ref")},
+	{"duplicate-parameter-in-list:inline-then-reference", "pathItem", "", dupParamBy("inline", "ref")},
 	{"pathItem-extra-field", "pathItem", "extra", set("zz", 1.0)},
 	// responses
 	{"response-without-description", "response", "", del("description")},
@@ -509,6 +516,28 @@ func dupFirstParam(_ map[string]any, n map[string]any, _ []string) bool {
 		}
 	}
 	return false
+}
+
+// dupParamBy appends two entries that both denote the component parameter Trace (header X-Trace).
+func dupParamBy(first, second string) func(_ map[string]any, n map[string]any, _ []string) bool {
+	entry := func(how string) any {
+		if how == "ref" {
+			return map[string]any{"$ref": "#/components/parameters/Trace"}
+		}
+		return map[string]any{"in": "header", "name": "X-Trace", "schema": map[string]any{"type": "string"}}
+	}
+	return func(_ map[string]any, n map[string]any, _ []string) bool {
+		l, _ := n["parameters"].([]any)
+		for _, p := range l {
+			if m, ok := p.(map[string]any); ok {
+				if r, _ := m["$ref"].(string); strings.Contains(r, "Trace") || m["name"] == "X-Trace" {
+					return false // the list already carries X-Trace: another rule's case
+				}
+			}
+		}
+		n["parameters"] = append(append([]any{}, l...), entry(first), entry(second))
+		return true
+	}
 }
 
 func wrongValueFor(t string) any {
